@@ -9,8 +9,10 @@
                        renumber_iso, rewrite_preserves_phys, series_combine_sound, parallel_combine_sound,
                        combine_series_refuted, perm_invariant_refuted, combine_parallel_refuted
    This file (compiled on every run) re-checks their axiom base, runs the
-   executable model on the reproducers of DESIGN section 6 (F3, F4), and proves
-   the switch-replacement statements over the rationals. *)
+   executable model on the reproducers of DESIGN section 6 (F3, F4), proves
+   the switch-replacement statements over the rationals, and the closed-chain statements
+   (closed_chain_exact, closed_chain_combine_sound: a chain whose two ends coincide, e.g. an
+   isolated two-element loop that is both in series and in parallel). *)
 Require Import LT.FieldSec LT.Circuit LT.QcI LT.RewriteEquiv LT.RewriteBranch LT.RewriteMore LT.RewriteModel LT.RewriteKeyed LT.RewriteSem LT.RewriteCorr LT.RewriteCorrI LT.RewriteRenum.
 From Coq Require Import Arith.
 Local Open Scope nat_scope.
@@ -115,6 +117,100 @@ Proof. unfold switch_closedQ, switch_closed_specQ, switch_closed, switch_closed_
 Theorem switch_before_refuted : exists nc t T, t <> T /\ switch_closedQ nc true t T <> switch_closed_specQ nc true t T /\
                                                switch_closedQ nc true t T <> switch_closedQ nc false t T.
 Proof. exists false, (qc 3 1), (qc 5 1). split; [intros H; inversion H|]. split; vm_compute; discriminate. Qed.
+
+(* ---- closed chains: a chain whose two ends are the same node ---------------------- *)
+(* The degenerate case is an isolated two-element loop (`C1 2 0 c1 v1; C2 2 0 c2 v2`, node 2
+   otherwise unconnected): the pair is at once in parallel and - seen from node 0 through the
+   private node 2 and back - a series chain 0 -> 2 -> 0.  simplify() series-combines it
+   (`Ct1 2 0 c1 c2/(c1+c2) v; W 2 0`), which shorts node 2.  The rest of the circuit sees a
+   one-terminal fragment, so the only observable of the rewrite is the loop current.
+   closed_chain_exact: for closed chains with the same (non-zero) impedance sum the
+   current-preserving port simulation holds IF AND ONLY IF the Thevenin source sums agree
+   (chain_sim_o + its converse loop_esum_necessary; solvability from loop_solvable). *)
+Theorem closed_chain_exact (K : fld) (a : Z) (l1 l2 : list (step K)) (IN IV IR : Z -> bool) :
+  chain_wf a l1 -> chain_wf a l2 -> lastn a l1 = a -> lastn a l2 = a -> l1 <> [] -> l2 <> [] ->
+  zsum l1 = zsum l2 -> zsum l1 <> f0 ->
+  (forall n, IN n = true <-> In n (interior l1 ++ interior l2)) ->
+  (forall o, IR o = true <-> In o (owns l1 ++ owns l2)) ->
+  kept_dir IV l1 l2 ->
+  (port_sim_o (same_current a l1 l2) IN IV IR (chain_sems a l1) (chain_sems a l2) <-> esum l1 = esum l2).
+Proof.
+  intros W1 W2 C1 C2 N1 N2 EZ Hz HIN HIR HK. split.
+  - intros S. apply (loop_esum_necessary K a l1 l2 IN IV IR); try assumption.
+    + intros n Hn. apply HIN. exact Hn.
+    + intros o Ho. apply HIR. exact Ho.
+    + exact (loop_solvable K a l1 IN IR (fun _ => f0) (fun _ => f0) W1 C1 Hz).
+  - intros EE. apply chain_sim_o; try assumption. rewrite C1, C2. reflexivity.
+Qed.
+
+(* series_combine_sound on a whole netlist when the recorded walk closes on itself
+   (last_of start w = start): the condition "the far end is not a private joint" is then the
+   condition on the start node, nothing else is needed - in particular NOT that the two ends
+   differ.  Every retained node (all but the private joints, which the rewrite shorts to the
+   attachment node) keeps its potential, every other component its current, and the loop current
+   is the same before and after. *)
+Theorem closed_chain_combine_sound (K : fld) (s : K) (s_nz : s <> f0) (kwf : skw -> K) (xsem : elem K -> sem K) (zname : name -> Z)
+    (zname_inj : forall a b : name, zname a = zname b -> a = b) (zname_pos : forall a : name, (0 <= zname a)%Z)
+    (S0 : netlist K) (path : list name) (start : nat) (els : list (elem K)) (w : list (elem K * bool * nat)) (ms : list (mem_t K))
+    (m0 : mem_t K) (ms' : list (mem_t K)) (new : elem K) (k : nat) :
+  NoDup (names S0) -> lookup_all S0 path = Ok els -> NoDup path -> walk start els = Some w ->
+  nodup_nat (inner_nodes w) = true -> natmem start (inner_nodes w) = false ->
+  last_of start w = start ->
+  natmem 0 (inner_nodes w) = false ->
+  (forall n : nat, In n (inner_nodes w) -> terminals_raw S0 n = 2%nat) ->
+  (forall x : trip K, In x w -> chain_el_ok (t_e x)) ->
+  ms = m0 :: ms' -> NoDup (map (fun m : elem K * bool => ename (fst m)) ms) ->
+  Permutation.Permutation
+    (map (fun x : trip K => (t_e x, t_fw x)) (filter (fun x : trip K => nmem (ename (t_e x)) (map (fun m : elem K * bool => ename (fst m)) ms)) w)) ms ->
+  chain_el_ok new -> enodes new = enodes (fst m0) -> tz s new = tzsum s ms -> sgn (snd m0) (te s kwf new) = tesum s kwf ms ->
+  ~ In (ename new) (names S0) -> (forall j : nat, ename new <> NWire j) -> (forall j : nat, ~ In (NWire (k + j)) (names S0)) ->
+  let rest := filter (fun e : elem K => negb (nmem (ename e) path)) S0 in
+  let wn := wn_of k (map (fun m : elem K * bool => ename (fst m)) ms') in
+  let r := rep (ename (fst m0)) (fun x : name => nmem x (map (fun m : elem K * bool => ename (fst m)) ms')) new wn in
+  let w2 := map (trep r) w in
+  let IN := mem (map zn (inner_nodes w)) in
+  let IR := mem (owns (tsteps s kwf zname w) ++ owns (tsteps s kwf zname w2)) in
+  let IV := mem (map zname (map (fun m : elem K * bool => ename (fst m)) ms ++ ename new :: map (fun m : elem K * bool => wn (ename (fst m))) ms')) in
+  (forall e : elem K, In e rest -> match branch_of s kwf zname e with
+                                   | Some _ => length (enodes e) = 2%nat
+                                   | None => ext_of IN IV IR (esem s kwf xsem zname e)
+                                   end) ->
+  gsim_o (same_current (zn start) (tsteps s kwf zname w) (tsteps s kwf zname w2)) IN IV (nsem s kwf xsem zname S0)
+    (nsem s kwf xsem zname
+       (filter (fun e : elem K => negb (nmem (ename e) (map (fun m : elem K * bool => ename (fst m)) ms))) S0 ++ new :: mk_wires k (map fst ms'))).
+Proof.
+  intros H1 H2 H3 H4 C1 C2 Hc.
+  exact (series_combine_sound K s s_nz kwf xsem zname zname_inj zname_pos S0 path start els w ms m0 ms' new k H1 H2 H3 H4 C1 C2
+           (eq_ind_r (fun x => natmem x (inner_nodes w) = false) C2 Hc)).
+Qed.
+
+(* the executable model on the reproducer `V1 1 0 step 5; R1 1 0 2; C1 2 0 3 1; C2 2 0 5 1`
+   (enumeration order C2, C1): series combination at C2's place, C1 becomes the wire that
+   shorts node 2; the initial voltages cancel along the loop (1 - 1 = 0); every contract flag
+   holds, the last one (f_raw) being the boolean form of the hypotheses of closed_chain_combine_sound *)
+Definition loop_net : list elemQ :=
+  [ElemQ (NOrig 0) TV [1; 0] KwStep (qc 5 1) None; ElemQ (NOrig 1) TR [1; 0] KwNone (qc 2 1) None;
+   ElemQ (NOrig 2) TC [2; 0] KwNone (qc 3 1) (Some (qc 1 1)); ElemQ (NOrig 3) TC [2; 0] KwNone (qc 5 1) (Some (qc 1 1))].
+Definition loop_args := SArgs None None [0] 1 true false false false.
+Definition loop_trace (order : list name) : list stage :=
+  [Stage true [ASet [NOrig 1; NOrig 0] 0 [NOrig 1; NOrig 0] 0 [NOrig 1; NOrig 0] [];
+               ASet [NOrig 2; NOrig 3] 0 [NOrig 2; NOrig 3] 0 [NOrig 2; NOrig 3] [Sub TC [NOrig 2; NOrig 3] (Some order) None]]].
+Definition names_nodes_ics (r : res (sstate QcF)) : list (name * list nat * Qc * option Qc) :=
+  match r with Ok x => map (fun e => (ename e, enodes e, eval e, eic e)) (x_net x) | Err => [] end.
+Example closed_loop_model_C2_C1 :
+  names_nodes_ics (simplifyQ repaired loop_args loop_net (loop_trace [NOrig 3; NOrig 2])) =
+  [(NOrig 0, [1; 0], qc 5 1, None); (NOrig 1, [1; 0], qc 2 1, None); (NNew TC 1, [2; 0], qc 15 8, Some 0%Qc); (NWire 0, [2; 0], 0%Qc, None)] /\
+  simplify_flags repaired loop_args loop_net (loop_trace [NOrig 3; NOrig 2]) = (true, true, true, true, []).
+Proof. split; vm_compute; reflexivity. Qed.
+(* the walk the contract check follows is closed: it starts and ends at node 0 with node 2 inside *)
+Example closed_loop_walk :
+  option_map (fun w => (last_of 0 w, inner_nodes w)) (walk 0 [ElemQ (NOrig 2) TC [2; 0] KwNone (qc 3 1) (Some (qc 1 1)); ElemQ (NOrig 3) TC [2; 0] KwNone (qc 5 1) (Some (qc 1 1))]) =
+  Some (0, [2]).
+Proof. vm_compute. reflexivity. Qed.
+Print Assumptions closed_chain_exact.
+Print Assumptions closed_chain_combine_sound.
+Print Assumptions closed_loop_model_C2_C1.
+Print Assumptions closed_loop_walk.
 
 (* ---- axiom base of the general theorems (recorded in the evidence on every run) -- *)
 Print Assumptions replace_preserves_phys.
